@@ -54,6 +54,22 @@ def nc_weight(q, pv, process, projectile, pol, Q2, MZ, s2w, prc):
     return w
 
 
+
+def nc_weight_split(q, process, projectile, pol, Q2, MZ, s2w, prc):
+    """(VV, AA) parts of the parity-conserving weight of quark flavour q: VV collects e_q^2, e_q g_V^q and (g_V^q)^2, AA the (g_A^q)^2 term."""
+    eq, gvq, gaq = EQ[q], T3[q] - 2.0 * EQ[q] * s2w, T3[q]
+    if projectile in ("electron", "positron"):
+        ee, gve, gae = -1.0, -0.5 + 2.0 * s2w, -0.5
+        lam = -pol if projectile == "electron" else pol
+    else:
+        ee, gve, gae = 0.0, 0.5, 0.5
+        lam = pol if projectile == "neutrino" else -pol
+    eta = 0.0 if process == "EM" else eta_gZ(Q2, MZ, s2w, prc)
+    lep = (gve * gve + gae * gae + 2.0 * lam * gve * gae) * eta * eta
+    vv = ee * ee * eq * eq + 2.0 * ee * eq * gvq * (gve + lam * gae) * eta + gvq * gvq * lep
+    aa = gaq * gaq * lep
+    return vv, aa
+
 def ckm2(ckm):
     """3x3 matrix of squared elements, rows u,c,t, columns d,s,b."""
     if isinstance(ckm, str):
